@@ -133,6 +133,43 @@ type vmCase struct {
 	Idx     *int `json:"idx,omitempty"`
 	NilPrev bool `json:"nilprev,omitempty"`
 	NIn     int  `json:"nin,omitempty"`
+	// explicit spending transaction (signature scenarios): the checked input is TxIdx
+	Tx     *caseTx `json:"tx,omitempty"`
+	TxIdx  int     `json:"txidx,omitempty"`
+	Amount uint64  `json:"amount,omitempty"`
+	Sx     Ev      `json:"sx,omitempty"`
+}
+
+type caseIn struct {
+	Tag  int    `json:"tag"`
+	Vout uint32 `json:"vout"`
+	Seq  uint32 `json:"seq"`
+}
+type caseOut struct {
+	Sats   uint64 `json:"sats"`
+	Script []int  `json:"script"`
+}
+type caseTx struct {
+	Ver  uint32    `json:"ver"`
+	Lt   uint32    `json:"lt"`
+	Ins  []caseIn  `json:"ins"`
+	Outs []caseOut `json:"outs"`
+}
+
+func (ct *caseTx) build(idx int, unlock *bscript.Script) *bt.Tx {
+	tx := &bt.Tx{Version: ct.Ver, LockTime: ct.Lt}
+	for k, i := range ct.Ins {
+		in := &bt.Input{PreviousTxOutIndex: i.Vout, SequenceNumber: i.Seq, UnlockingScript: bscript.NewFromBytes([]byte{})}
+		_ = in.PreviousTxIDAdd(bytes.Repeat([]byte{byte(i.Tag)}, 32))
+		if k == idx {
+			in.UnlockingScript = unlock
+		}
+		tx.Inputs = append(tx.Inputs, in)
+	}
+	for _, o := range ct.Outs {
+		tx.Outputs = append(tx.Outputs, &bt.Output{Satoshis: o.Sats, LockingScript: bscript.NewFromBytes(toBytes(o.Script))})
+	}
+	return tx
 }
 
 func toBytes(a []int) []byte {
@@ -157,7 +194,11 @@ func runVM(c vmCase, dbg string) vmResult {
 	opts := []interpreter.ExecutionOptionFunc{interpreter.WithScripts(ls, us), interpreter.WithFlags(scriptflag.Flag(c.Flags))}
 	var tx *bt.Tx
 	var txBefore []byte
-	if !c.NoTx {
+	if c.Tx != nil {
+		tx = c.Tx.build(c.TxIdx, us)
+		txBefore = tx.Bytes()
+		opts = append(opts, interpreter.WithTx(tx, c.TxIdx, &bt.Output{Satoshis: c.Amount, LockingScript: ls}))
+	} else if !c.NoTx {
 		tx = &bt.Tx{Version: c.Ver, LockTime: c.Lt}
 		in := &bt.Input{PreviousTxOutIndex: 0, SequenceNumber: c.Seq, UnlockingScript: us}
 		_ = in.PreviousTxIDAdd(bytes.Repeat([]byte{0x11}, 32))
@@ -240,8 +281,15 @@ func vmCmd(args []string) error {
 		os.WriteFile(intent, []byte(fmt.Sprintf("%d", i)), 0o644)
 		fr, genesis := flagRecord(scriptflag.Flag(c.Flags))
 		r := runVM(c, "rec")
-		w(Ev{"ev": "begin", "id": c.ID, "case": i, "src": c.Src, "unlock": c.Unlock, "lock": c.Lock, "flags": c.Flags, "genesis": genesis, "f": fr,
-			"ver": le(c.Ver), "lt": le(c.Lt), "seq": le(c.Seq), "notx": c.NoTx})
+		beg := Ev{"ev": "begin", "id": c.ID, "case": i, "src": c.Src, "unlock": c.Unlock, "lock": c.Lock, "flags": c.Flags, "genesis": genesis, "f": fr,
+			"ver": le(c.Ver), "lt": le(c.Lt), "seq": le(c.Seq), "notx": c.NoTx}
+		if c.Tx != nil {
+			beg["ver"], beg["lt"], beg["seq"] = le(c.Tx.Ver), le(c.Tx.Lt), le(c.Tx.Ins[c.TxIdx].Seq)
+		}
+		if c.Sx != nil {
+			beg["sx"] = c.Sx
+		}
+		w(beg)
 		for _, s := range r.rec.steps {
 			w(s)
 		}
